@@ -166,7 +166,9 @@ class UCCGD(Ansatz):
         qubit_op = self._get_qubit_operator()
         qu_op_dict = qubit_op.terms
 
-        if set(qu_op_dict) != set(self.qu_op_dict):
+        # The order of the terms of the qubit operator can depend on the parameter values (exact cancellations
+        # between amplitudes): rebuild whenever it differs from the order the circuit was built with.
+        if list(qu_op_dict) != [term for term, _ in self.pauli_order]:
             self.build_circuit(var_params)
         else:
             for i, (term, _) in enumerate(self.pauli_order):
